@@ -11,7 +11,7 @@ fn arr_head(n: usize) -> Vec<u8> { if n < 24 { vec![0x80 + n as u8] } else { vec
 
 /// one history on one collection type: constructor path with a list, then add() one by one
 macro_rules! run_set {
-    ($ty:ty, $mk:expr, $js:expr, $enc:expr, $dec:expr, $s:expr) => {{
+    ($ty:ty, $mk:expr, $js:expr, $enc:expr, $dec:expr, $bld:expr, $s:expr) => {{
         let s: &J = $s;
         let ids = |k: &str| -> Vec<u64> { s[k].as_array().unwrap().iter().map(|x| x.as_u64().unwrap()).collect() };
         let init = ids("init");
@@ -23,6 +23,8 @@ macro_rules! run_set {
         let r = call(|| -> Result<_, csl::JsError> {
             let mut c: $ty = match path {
                 "new" => <$ty>::new(),
+                // the collection as a BUILDER hands it out (the constructor list went through the builder's add)
+                "builder" => { let f: Option<fn(Vec<_>) -> Result<$ty, csl::JsError>> = $bld; match f { Some(f) => f(init.iter().map(|id| elem(*id)).collect())?, None => return Err(csl::JsError::from_str("no builder for this collection")) } }
                 "json" => {
                     let parts: Vec<String> = init.iter().map(|id| $js(&elem(*id))).collect();
                     <$ty>::from_json(&format!("[{}]", parts.join(",")))?
@@ -50,15 +52,20 @@ pub fn run_one(out: &mut Out, sc: usize, s: &J) {
         None => vec!["inputs", "keyhashes", "credentials", "certificates", "proposals", "vkeywitnesses", "bootstraps", "ws_native", "ws_plutus", "ws_data"] };
     for ty in types {
         let (table, r) = match ty {
-            "inputs" => run_set!(csl::TransactionInputs, |id: u8| mk::txin(id, id as u32), |e: &csl::TransactionInput| e.to_json().unwrap(), |e: &csl::TransactionInput| e.to_bytes(), |b: Vec<u8>| csl::TransactionInput::from_bytes(b).unwrap(), s),
-            "keyhashes" => run_set!(csl::Ed25519KeyHashes, |id: u8| mk::keyhash(id), |e: &csl::Ed25519KeyHash| format!("\"{}\"", e.to_hex()), |e: &csl::Ed25519KeyHash| { let mut b = vec![0x58, 0x1c]; b.extend(e.to_bytes()); b }, |b: Vec<u8>| csl::Ed25519KeyHash::from_bytes(b[2..].to_vec()).unwrap(), s),
-            "credentials" => run_set!(csl::Credentials, |id: u8| if id == 3 { csl::Credential::from_scripthash(&mk::scripthash(id)) } else { csl::Credential::from_keyhash(&mk::keyhash(id)) }, |e: &csl::Credential| e.to_json().unwrap(), |e: &csl::Credential| e.to_bytes(), |b: Vec<u8>| csl::Credential::from_bytes(b).unwrap(), s),
-            "certificates" => run_set!(csl::Certificates, |id: u8| mk::cert(&json!({"k": if id == 3 { 7 } else if id == 2 { 3 } else { 2 }, "cred": {"t": 0, "h": id}, "pool": 7, "coin_n": [id]})), |e: &csl::Certificate| e.to_json().unwrap(), |e: &csl::Certificate| e.to_bytes(), |b: Vec<u8>| csl::Certificate::from_bytes(b).unwrap(), s),
-            "proposals" => run_set!(csl::VotingProposals, |id: u8| mk::proposal(&json!({"dep_n": [id], "cred": {"t": 0, "h": id}})), |e: &csl::VotingProposal| e.to_json().unwrap(), |e: &csl::VotingProposal| e.to_bytes(), |b: Vec<u8>| csl::VotingProposal::from_bytes(b).unwrap(), s),
-            "vkeywitnesses" => run_set!(csl::Vkeywitnesses, |id: u8| csl::Vkeywitness::new(&csl::Vkey::new(&mk::sk(id).to_public()), &mk::sk(id).sign(&[id])), |e: &csl::Vkeywitness| e.to_json().unwrap(), |e: &csl::Vkeywitness| e.to_bytes(), |b: Vec<u8>| csl::Vkeywitness::from_bytes(b).unwrap(), s),
-            "bootstraps" => run_set!(csl::BootstrapWitnesses, |id: u8| csl::make_icarus_bootstrap_witness(&csl::TransactionHash::from_bytes(mk::h32(id)).unwrap(), &mk::byron_addr(id, 764824073), &mk::bip32(id)), |e: &csl::BootstrapWitness| e.to_json().unwrap(), |e: &csl::BootstrapWitness| e.to_bytes(), |b: Vec<u8>| csl::BootstrapWitness::from_bytes(b).unwrap(), s),
+            "inputs" => run_set!(csl::TransactionInputs, |id: u8| mk::txin(id, id as u32), |e: &csl::TransactionInput| e.to_json().unwrap(), |e: &csl::TransactionInput| e.to_bytes(), |b: Vec<u8>| csl::TransactionInput::from_bytes(b).unwrap(),
+                Some(|es: Vec<csl::TransactionInput>| { let mut b = csl::TxInputsBuilder::new(); for e in es.iter() { b.add_regular_input(&mk::enterprise_addr(0, &csl::Credential::from_keyhash(&mk::keyhash(1))), e, &csl::Value::new(&csl::BigNum::from(1_000_000u64))); } Ok(b.inputs()) }), s),
+            "keyhashes" => run_set!(csl::Ed25519KeyHashes, |id: u8| mk::keyhash(id), |e: &csl::Ed25519KeyHash| format!("\"{}\"", e.to_hex()), |e: &csl::Ed25519KeyHash| { let mut b = vec![0x58, 0x1c]; b.extend(e.to_bytes()); b }, |b: Vec<u8>| csl::Ed25519KeyHash::from_bytes(b[2..].to_vec()).unwrap(), None, s),
+            "credentials" => run_set!(csl::Credentials, |id: u8| if id == 3 { csl::Credential::from_scripthash(&mk::scripthash(id)) } else { csl::Credential::from_keyhash(&mk::keyhash(id)) }, |e: &csl::Credential| e.to_json().unwrap(), |e: &csl::Credential| e.to_bytes(), |b: Vec<u8>| csl::Credential::from_bytes(b).unwrap(), None, s),
+            "certificates" => run_set!(csl::Certificates, |id: u8| mk::cert(&json!({"k": if id == 3 { 7 } else if id == 2 { 3 } else { 2 }, "cred": {"t": 0, "h": id}, "pool": 7, "coin_n": [id]})), |e: &csl::Certificate| e.to_json().unwrap(), |e: &csl::Certificate| e.to_bytes(), |b: Vec<u8>| csl::Certificate::from_bytes(b).unwrap(),
+                Some(|es: Vec<csl::Certificate>| { let mut b = csl::CertificatesBuilder::new(); for e in es.iter() { let _ = b.add(e); } Ok(b.build()) }), s),
+            "proposals" => run_set!(csl::VotingProposals, |id: u8| mk::proposal(&json!({"dep_n": [id], "cred": {"t": 0, "h": id}})), |e: &csl::VotingProposal| e.to_json().unwrap(), |e: &csl::VotingProposal| e.to_bytes(), |b: Vec<u8>| csl::VotingProposal::from_bytes(b).unwrap(),
+                Some(|es: Vec<csl::VotingProposal>| { let mut b = csl::VotingProposalBuilder::new(); for e in es.iter() { let _ = b.add(e); } Ok(b.build()) }), s),
+            "vkeywitnesses" => run_set!(csl::Vkeywitnesses, |id: u8| csl::Vkeywitness::new(&csl::Vkey::new(&mk::sk(id).to_public()), &mk::sk(id).sign(&[id])), |e: &csl::Vkeywitness| e.to_json().unwrap(), |e: &csl::Vkeywitness| e.to_bytes(), |b: Vec<u8>| csl::Vkeywitness::from_bytes(b).unwrap(), None, s),
+            "bootstraps" => run_set!(csl::BootstrapWitnesses, |id: u8| csl::make_icarus_bootstrap_witness(&csl::TransactionHash::from_bytes(mk::h32(id)).unwrap(), &mk::byron_addr(id, 764824073), &mk::bip32(id)), |e: &csl::BootstrapWitness| e.to_json().unwrap(), |e: &csl::BootstrapWitness| e.to_bytes(), |b: Vec<u8>| csl::BootstrapWitness::from_bytes(b).unwrap(), None, s),
             _ => run_ws(ty, s),
         };
+        // a collection no builder hands out has no "builder" path
+        if s["path"] == "builder" && r.get("err").and_then(|e| e.as_str()).map(|e| e.contains("no builder for this collection")).unwrap_or(false) { continue; }
         out.ev(json!({"ev": "Set", "sc": sc, "type": ty, "path": s["path"], "init": s["init"], "adds": s["adds"], "elem": table, "r": r}));
     }
 }
